@@ -655,6 +655,21 @@ func c05GenRec(rnd *Rand, nrefs int, kind int, target int) *c05Sem {
 		return s
 	}
 	s.Cigar = c05GenCigar(rnd, c05GenNCigar(rnd, kind == 3))
+	if kind != 3 && nrefs > 0 && rnd.coin(1, 8) {
+		// a MAPPED record whose CIGAR consumes no reference (only I, S, H, P), placed on a bin boundary: Record.Bin
+		// counts it as one base long, so the bin is that of [pos, pos+1) and not of the tile before
+		s.Flags &^= 4
+		if s.Ref < 0 {
+			s.Ref = rnd.intn(nrefs)
+		}
+		shift := uint(rnd.pick([]int{14, 14, 14, 17, 20, 23, 26}))
+		s.Pos = rnd.rng(1, (1<<29-1)>>shift)<<shift - rnd.pick([]int{0, 0, 0, 1})
+		n := rnd.rng(1, 4)
+		s.Cigar = make([][2]int, n)
+		for i := range s.Cigar {
+			s.Cigar[i] = [2]int{rnd.rng(1, 50), rnd.pick([]int{1, 4, 5, 6})}
+		}
+	}
 	c05SetSeq(rnd, s, rnd.pick([]int{0, 1, 2, 3, 4, 5, 31, 32, 33, 100, 101, rnd.rng(0, 300)}))
 	switch kind {
 	case 1:
@@ -1406,6 +1421,20 @@ func c05HistRec(r *Result, s *c05Sem) {
 		if c[0] >= 1<<28-3 {
 			r.hist("cigar.len~2^28")
 			break
+		}
+	}
+	if s.Flags&4 == 0 && len(s.Cigar) > 0 && s.Ref >= 0 {
+		noRef := true
+		for _, c := range s.Cigar {
+			if c[1] != 1 && c[1] != 4 && c[1] != 5 && c[1] != 6 {
+				noRef = false
+			}
+		}
+		if noRef {
+			r.hist("cigar.mapped-consumes-no-reference")
+			if s.Pos > 0 && s.Pos%16384 == 0 {
+				r.hist("cigar.mapped-consumes-no-reference@16KiB-boundary")
+			}
 		}
 	}
 	for _, a := range s.Aux {
